@@ -134,7 +134,7 @@ spec fn scan_ok<'a, F: FnMut(&Symbol<'a>) -> bool>(syms: Seq<Symbol<'a>>, n: int
 }
 
 // class V for walk_symbols' plain callback
-pub trait SymbolSink<'a> {
+trait SymbolSink<'a> {
     spec fn log(&self) -> Seq<Symbol<'a>>;
     fn visit(&mut self, s: Symbol<'a>)
         ensures final(self).log() == old(self).log().push(s);
